@@ -632,7 +632,19 @@ def check_cov(rec):
     cov = build_cov(cx, rec["D"], rec["node"])
     inv = bool(rec["inv"])
     require(cov.op.domain is cx.dom(rec["D"]), "operator_domain", f"{cov.op.domain}")
+    # history: earlier draws from operators DERIVED from the same object (its .inverse / .adjoint, the other
+    # from_inverse flag) must not influence the draw under test (e.g. through cached sampling factors)
+    npre = 0
+    for how, finv, seed in rec.get("pre", []):
+        try:
+            other = cov.op if how == "none" else _flip_op(cov.op, how)
+            with ift.random.Context(int(seed)):
+                other.draw_sample(from_inverse=bool(finv))
+            npre += 1
+        except (REFUSE + (ZeroDivisionError, AttributeError, TypeError)):
+            pass       # refusals of the warm-up draws are judged by their own cases, not here
     outcome, classes = run_tape(cx, cov, inv, rec["w"])
+    classes = list(classes) + ([f"earlier_draws_{npre}"] if rec.get("pre") else [])
     classes = list(classes) + sorted(cov.tags) + [outcome, "from_inverse" if inv else "forward",
                                                   "op_" + type(cov.op).__name__]
     anyc, allc = bool(np.any(cov.cm)), bool(np.all(cov.cm))
@@ -1252,7 +1264,22 @@ def r_mc(draw, tier):
 
 
 _NT = ("non-trivial = the draw succeeded and the operator is composite (not a bare leaf) or the draw is from the "
-       "inverse or the sampling dtype is complex; every case also checks S*0 = 0 and linearity in the normals")
+       "inverse or the sampling dtype is complex; every case also checks S*0 = 0 and linearity in the normals; "
+       "0-2 earlier draws from operators derived from the same object (.inverse/.adjoint, other from_inverse) precede "
+       "the draw under test and must not influence it")
+
+def _with_history(strategy):
+    """adds 0-2 earlier draws from the same operator family to a recipe strategy"""
+    pre = st.lists(st.tuples(st.sampled_from(["none", "inverse", "adjoint", "inverse_adjoint", "adjoint_inverse"]),
+                             st.booleans(), st.integers(0, 2**20)).map(list), min_size=0, max_size=2)
+
+    def wrapped(tier):
+        return st.tuples(strategy(tier), pre).map(lambda t: dict(t[0], pre=t[1]))
+    return wrapped
+
+
+r_scaling, r_diagonal, r_sandwich, r_block, r_sums = (_with_history(f) for f in
+                                                     (r_scaling, r_diagonal, r_sandwich, r_block, r_sums))
 
 SUBS = [
     Sub(name="scaling", check=check_cov, strategy=r_scaling, quick=800, thorough=20000, shards=4,
